@@ -66,7 +66,15 @@ def instances(tier, seed):
             for c in combos:
                 out.append({"name": "join-sep%d-%s" % (nsep, "+".join(c) or "none"), "fn": "join", "timeout": T,
                             "params": {"nsep": nsep, "items": list(c)}})
-    return out
+    # history twins: the operands were rendered / measured before (all memoised views filled in)
+    warm = []
+    for i in out:
+        if tier == "quick" and i["fn"] == "slice_" and (i["params"]["K"] > 2 or i["params"]["layout"] != "distinct"):
+            continue
+        if tier == "quick" and i["fn"] == "join" and len(i["params"]["items"]) > 2:
+            continue
+        warm.append(dict(i, name=i["name"] + "-warm", params=dict(i["params"], warm=True)))
+    return out + warm
 
 
 def setup(params):
@@ -82,7 +90,10 @@ def selftest(rnd):
 def _mk(ns, K, layout, mk_text, base=0, atts=None):
     from curtsies.formatstring import FmtStr, Chunk
     atts = atts or (ATTS if layout == "distinct" else ATTS_SHARED)
-    return FmtStr(*[Chunk(mk_text(base + i, ns[i]), atts[i]) for i in range(K)])
+    f = FmtStr(*[Chunk(mk_text(base + i, ns[i]), atts[i]) for i in range(K)])
+    if P.get("warm"):
+        H.warm(f)
+    return f
 
 
 def _sign_ok(mode, sg, a, b):
@@ -113,6 +124,7 @@ def slice_(n0: int, n1: int, n2: int, n3: int, n4: int, n5: int, a: int, b: int,
     r = f[sl]
     ln_r = len(r)
     s_r = r.s
+    out_r = str(r)
     with NoTracing():
         tot = z3.IntVal(0)
         for i in range(K):
@@ -124,7 +136,7 @@ def slice_(n0: int, n1: int, n2: int, n3: int, n4: int, n5: int, a: int, b: int,
         res = flat_at(r, Pz)
         exp = flat_at(f, Pz + A)
         inr = z3.And(Pz >= 0, Pz < B - A)
-        ok = z3.And(res[3] == B - A, zint(ln_r) == B - A, z3.Implies(inr, same(res, exp)))
+        ok = z3.And(res[3] == B - A, zint(ln_r) == B - A, z3.Implies(inr, same(res, exp)), H.render_term(r, out_r, Pz))
         # .s of the result is the text of its runs (memoised view)
         if isinstance(s_r, SegStr):
             sa, sb = s_r.atom_at(Pz)
@@ -198,12 +210,14 @@ def add(n0: int, n1: int, n2: int, m0: int, m1: int, p: int) -> bool:
         r = f + g
         first, second = f, gf
     ln_r = len(r)
+    obs = H.observe(r)
+    out_r = str(r)
     with NoTracing():
         Pz = zint(p)
         l1 = flat_at(first, Pz)[3]
         l2 = flat_at(second, Pz)[3]
         res = flat_at(r, Pz)
-        ok = z3.And(res[3] == l1 + l2, zint(ln_r) == l1 + l2,
+        ok = z3.And(res[3] == l1 + l2, zint(ln_r) == l1 + l2, H.views_term(obs, res, Pz, l1 + l2), H.render_term(r, out_r, Pz),
                     z3.Implies(z3.And(Pz >= 0, Pz < l1 + l2),
                                z3.If(Pz < l1, same(res, flat_at(first, Pz)), same(res, flat_at(second, Pz - l1)))))
         if len(f.chunks) != K or any(x is not y for x, y in zip(f.chunks, before)):
@@ -224,6 +238,8 @@ def mul(n0: int, n1: int, k: int, p: int) -> bool:
     f = _mk(ns, K, "distinct", SegStr.source)
     r = f * k
     ln_r = len(r)
+    obs = H.observe(r)
+    out_r = str(r)
     with NoTracing():
         Pz = zint(p)
         kz = zint(k)
@@ -233,7 +249,7 @@ def mul(n0: int, n1: int, k: int, p: int) -> bool:
         body = z3.BoolVal(True)
         for q in range(0, P["maxk"]):
             body = z3.And(body, z3.Implies(z3.And(Pz >= q * l1, Pz < (q + 1) * l1, q < kz), same(res, flat_at(f, Pz - q * l1))))
-        ok = z3.And(res[3] == kz * l1, zint(ln_r) == kz * l1, z3.Implies(z3.And(Pz >= 0, Pz < kz * l1), body))
+        ok = z3.And(res[3] == kz * l1, zint(ln_r) == kz * l1, H.views_term(obs, res, Pz, kz * l1), H.render_term(r, out_r, Pz), z3.Implies(z3.And(Pz >= 0, Pz < kz * l1), body))
         nontrivial = z3.And(kz >= 2, Pz >= l1, Pz < kz * l1)
     return verdict(sbool(ok), sbool(nontrivial))
 
@@ -253,6 +269,8 @@ def _items(ms, mk_text):
         else:
             k = {"f0": 0, "f1": 1, "f2": 2}[kind]
             it = FmtStr(*[Chunk(mk_text(base + q, ms[j + q]), G_ATTS[q + (idx % 2)]) for q in range(k)])
+            if P.get("warm"):
+                H.warm(it)
             items.append(it)
             views.append(it)
             j += k
@@ -270,6 +288,8 @@ def join(s0: int, s1: int, m0: int, m1: int, m2: int, m3: int, m4: int, m5: int,
     items, views = _items(ms, SegStr.source)
     r = sep.join(items)
     ln_r = len(r)
+    obs = H.observe(r)
+    out_r = str(r)
     with NoTracing():
         Pz = zint(p)
         seq = []
@@ -284,7 +304,7 @@ def join(s0: int, s1: int, m0: int, m1: int, m2: int, m3: int, m4: int, m5: int,
             ln = flat_at(part, Pz)[3]
             body = z3.And(body, z3.Implies(z3.And(Pz >= off, Pz < off + ln), same(res, flat_at(part, Pz - off))))
             off = off + ln
-        ok = z3.And(res[3] == off, zint(ln_r) == off, z3.Implies(z3.And(Pz >= 0, Pz < off), body))
+        ok = z3.And(res[3] == off, zint(ln_r) == off, H.views_term(obs, res, Pz, off), H.render_term(r, out_r, Pz), z3.Implies(z3.And(Pz >= 0, Pz < off), body))
         if len(sep.chunks) != len(sep_before) or any(x is not y for x, y in zip(sep.chunks, sep_before)):
             return verdict(False)
         nontrivial = z3.And(Pz >= 1, Pz < off, off >= len(seq))
@@ -293,7 +313,7 @@ def join(s0: int, s1: int, m0: int, m1: int, m2: int, m3: int, m4: int, m5: int,
 
 # ---------------------------------------------------------------- concrete twin (plain CPython)
 def concrete(fn, params, args):
-    from chx.common import cells, fmt_cells
+    from chx.common import cells, fmt_cells, render_matches
     from curtsies.formatstring import FmtStr
     P.clear()
     P.update(params)
@@ -310,6 +330,8 @@ def concrete(fn, params, args):
             want = before[sl]
             got = cells(r)
             ok = got == want and len(r) == len(want) and r.s == "".join(c for c, _ in want) and cells(f) == before
+            if ok and not render_matches(r):
+                return {"ok": False, "observed": "str(result) = %r" % (str(r),), "expected": "a string displaying " + fmt_cells(got), "call": "%r[%r]" % (f, sl)}
             return {"ok": ok, "observed": fmt_cells(got), "expected": fmt_cells(want), "call": "%r[%r]" % (f, sl)}
         if fn == "index":
             ns, i = list(args[:6]), args[6]
@@ -339,8 +361,9 @@ def concrete(fn, params, args):
             want = (bg + bf) if other == "rstr" else (bf + bg)
             got = cells(r)
             ok = got == want and len(r) == len(want) and cells(f) == bf and cells(g) == bg and isinstance(r, FmtStr)
-            return {"ok": ok, "observed": fmt_cells(got), "expected": fmt_cells(want),
-                    "call": ("%r + %r" % ((g, f) if other == "rstr" else (f, g)))}
+            ok = ok and r.s == "".join(c for c, _ in want) and render_matches(r)
+            return {"ok": ok, "observed": fmt_cells(got) + " .s=%r str=%r" % (r.s, str(r)), "expected": fmt_cells(want),
+                    "call": ("%r + %r" % ((g, f) if other == "rstr" else (f, g))) + (" [operands rendered before]" if params.get("warm") else "")}
         if fn == "mul":
             ns, k = list(args[:2]), args[2]
             f = _mk(ns, params["K"], "distinct", src_text)
@@ -348,8 +371,8 @@ def concrete(fn, params, args):
             r = f * k
             want = bf * k
             got = cells(r)
-            return {"ok": got == want and len(r) == len(want) and cells(f) == bf, "observed": fmt_cells(got),
-                    "expected": fmt_cells(want), "call": "%r * %r" % (f, k)}
+            return {"ok": got == want and len(r) == len(want) and cells(f) == bf and r.s == "".join(c for c, _ in want) and render_matches(r),
+                    "observed": fmt_cells(got) + " .s=%r str=%r" % (r.s, str(r)), "expected": fmt_cells(want), "call": "%r * %r" % (f, k)}
         if fn == "join":
             ss, ms = list(args[:2]), list(args[2:8])
             sep = _mk(ss, params["nsep"], "distinct", src_text, base=40, atts=SEP_ATTS)
@@ -362,8 +385,8 @@ def concrete(fn, params, args):
                 want += cells(v)
             r = sep.join(items)
             got = cells(r)
-            return {"ok": got == want and len(r) == len(want) and cells(sep) == bs, "observed": fmt_cells(got),
-                    "expected": fmt_cells(want), "call": "%r.join(%r)" % (sep, items)}
+            return {"ok": got == want and len(r) == len(want) and cells(sep) == bs and r.s == "".join(c for c, _ in want) and render_matches(r),
+                    "observed": fmt_cells(got) + " .s=%r str=%r" % (r.s, str(r)), "expected": fmt_cells(want), "call": "%r.join(%r)" % (sep, items)}
     except Exception as ex:
         return {"ok": False, "observed": "raised %r" % (ex,), "expected": "str-like behaviour", "call": "%s%r" % (fn, tuple(args))}
     raise KeyError(fn)
